@@ -167,6 +167,99 @@ func run(c *core.Ctx) {
 			exec(c, Case{Fn: fn, Ints: iota(n), Seed: int64(c.Rng.Intn(1 << 30))})
 		}
 	}
+	large(c)
+}
+
+// sizes around the powers of two and the standard library's insertion-sort threshold (12): a sort,
+// a stable sort or a search that switches algorithm with the length switches there
+var bigSizes = []int{11, 12, 13, 15, 16, 17, 31, 32, 33, 63, 64, 65, 127, 128, 129, 255, 256, 257, 511, 512, 513,
+	1023, 1024, 1025, 2047, 2048, 2049, 4095, 4096, 4097}
+
+// noEmit: the current case is checked by the Go oracle only (too large for the model in the quick tier).
+var noEmit bool
+
+func emit(c *core.Ctx, term string) {
+	if !noEmit {
+		c.Emit(term)
+	}
+}
+
+// large runs the oracle-heavy stream: every function on lengths 11..4097 with ties spread over the
+// whole slice at several densities. Only the smaller cases also go to the model.
+func large(c *core.Ctx) {
+	for _, t := range bigSizes {
+		for mode := 0; mode < 6; mode++ {
+			var keys []int
+			switch mode {
+			case 0:
+				keys = make([]int, t) // all equal
+			case 1:
+				keys = c.Rng.Ints(t, 0, 1)
+			case 2:
+				keys = c.Rng.Ints(t, -3, 3)
+			case 3:
+				keys = c.Rng.Ints(t, 0, t/8+1)
+			case 4:
+				keys = c.Rng.Ints(t, -4*t, 4*t)
+			default: // a fixed interleaving of 5 classes, descending inside
+				keys = make([]int, t)
+				for i := range keys {
+					keys[i] = (t - i) * 7 % 5
+				}
+			}
+			small := t <= 33 || (t <= 65 && (mode == 1 || mode == 5))
+			for _, fn := range intSorts {
+				noEmit = !small
+				exec(c, Case{Fn: fn, Ints: keys})
+			}
+			for _, fn := range pairSorts {
+				noEmit = !small && !(t <= 129 && mode == 1 && strings.Contains(fn, "Stable"))
+				exec(c, Case{Fn: fn, Less: "Key", Pairs: tagged(keys)})
+			}
+			if mode == 2 { // lexicographic (total) order on shuffled tags
+				ps := tagged(keys)
+				for j := range ps {
+					ps[j].T = c.Rng.Range(0, 3)
+				}
+				for _, fn := range pairSorts {
+					noEmit = t > 33
+					exec(c, Case{Fn: fn, Less: "Lex", Pairs: ps})
+				}
+			}
+			// searches: targets below / first / inside / last / above / probably absent
+			sorted := append([]int{}, keys...)
+			sort.Ints(sorted)
+			for k, target := range []int{sorted[0] - 1, sorted[0], sorted[t/2], sorted[t-1], sorted[t-1] + 1, sorted[t/3] + 1, sorted[(2*t)/3]} {
+				for f, fn := range []string{"BinarySearch", "BinarySearchFunc", "BinarySearchKey"} {
+					noEmit = t > 129 && !(k == 2 && f == 0 && mode == 3 && (t <= 1025 || t == 4097))
+					if fn == "BinarySearchKey" {
+						exec(c, Case{Fn: fn, Pairs: tagged(sorted), Target: target})
+					} else {
+						exec(c, Case{Fn: fn, Ints: sorted, Target: target})
+					}
+				}
+			}
+		}
+		for seed := int64(1); seed <= 3; seed++ {
+			noEmit = t > 129
+			exec(c, Case{Fn: "ShuffleRand", Ints: iota(t), Seed: seed + int64(t)})
+			exec(c, Case{Fn: "Shuffle", Ints: iota(t), Seed: seed + int64(t)})
+		}
+	}
+	noEmit = false
+	c.Note(fmt.Sprintf("large: %d lengths 11..4097 around the powers of two x 6 tie patterns (all equal, 2 keys, 7 keys, ~n/8 keys, "+
+		"mostly distinct, fixed interleaving) x 6 sort functions (+ lexicographic less), 7 targets x 3 search functions, "+
+		"3 seeds x Shuffle/ShuffleRand; checked by the direct oracle, the smaller ones (sorts <= 33 and a sample up to 129, searches and shuffles <= 129, "+
+		"a sample of searches up to 4097) also by the model", len(bigSizes)))
+}
+
+// fail records an oracle failure; the detail is clipped (cases have up to 4097 elements; the full
+// input is in the replay case).
+func fail(c *core.Ctx, what, detail string) {
+	if len(detail) > 700 {
+		detail = detail[:700] + " ..."
+	}
+	c.Fail(what, detail)
 }
 
 func iota(n int) []int {
@@ -280,7 +373,7 @@ func execSort(c *core.Ctx, cs Case) {
 		})
 	}
 	if kind != "" {
-		c.Fail(cs.Fn+" panics", kind)
+		fail(c, cs.Fn+" panics", kind)
 		return
 	}
 	desc := strings.Contains(cs.Fn, "Desc")
@@ -291,12 +384,12 @@ func execSort(c *core.Ctx, cs Case) {
 			ties = true
 		}
 		if (!desc && less(b, a)) || (desc && less(a, b)) {
-			c.Fail(cs.Fn+": result not ordered", fmt.Sprintf("input %v -> %v: elements %d,%d out of order", in, out, i, i+1))
+			fail(c, cs.Fn+": result not ordered", fmt.Sprintf("input %v -> %v: elements %d,%d out of order", in, out, i, i+1))
 			break
 		}
 	}
 	if !sameMultiset(in, out) {
-		c.Fail(cs.Fn+": result is not a permutation of the input", fmt.Sprintf("input %v -> %v", in, out))
+		fail(c, cs.Fn+": result is not a permutation of the input", fmt.Sprintf("input %v -> %v", in, out))
 	}
 	if strings.Contains(cs.Fn, "Stable") {
 		want := refStable(in, less)
@@ -304,7 +397,7 @@ func execSort(c *core.Ctx, cs Case) {
 			want = refStable(in, func(a, b P) bool { return less(b, a) })
 		}
 		if !eqPairs(out, want) {
-			c.Fail(cs.Fn+": not stable", fmt.Sprintf("input %v -> %v, the stable result is %v", in, out, want))
+			fail(c, cs.Fn+": not stable", fmt.Sprintf("input %v -> %v, the stable result is %v", in, out, want))
 		}
 		if ties && len(in) > 12 {
 			c.Nontrivial()
@@ -322,7 +415,7 @@ func execSort(c *core.Ctx, cs Case) {
 	if lname == "" {
 		lname = "Key"
 	}
-	c.Emit(fmt.Sprintf("CSort F%s L%s %s %s", cs.Fn, lname, pairsTerm(in), pairsTerm(out)))
+	emit(c, fmt.Sprintf("CSort F%s L%s %s %s", cs.Fn, lname, pairsTerm(in), pairsTerm(out)))
 }
 
 func execSearch(c *core.Ctx, cs Case) {
@@ -348,7 +441,7 @@ func execSearch(c *core.Ctx, cs Case) {
 	}
 	n = len(keys)
 	if kind != "" {
-		c.Fail(cs.Fn+" panics", kind)
+		fail(c, cs.Fn+" panics", kind)
 		return
 	}
 	want := n
@@ -375,16 +468,16 @@ func execSearch(c *core.Ctx, cs Case) {
 		c.Nontrivial()
 	}
 	if got != want {
-		c.Fail(cs.Fn+": not the smallest index whose element is not less than the target",
+		fail(c, cs.Fn+": not the smallest index whose element is not less than the target",
 			fmt.Sprintf("keys %v target %d: returned %d, want %d", keys, cs.Target, got, want))
 	}
 	switch cs.Fn {
 	case "BinarySearch":
-		c.Emit(fmt.Sprintf("CSearch false %s %s %s", core.ZList(cs.Ints), core.Z(cs.Target), core.Z(got)))
+		emit(c, fmt.Sprintf("CSearch false %s %s %s", core.ZList(cs.Ints), core.Z(cs.Target), core.Z(got)))
 	case "BinarySearchFunc":
-		c.Emit(fmt.Sprintf("CSearch true %s %s %s", core.ZList(cs.Ints), core.Z(cs.Target), core.Z(got)))
+		emit(c, fmt.Sprintf("CSearch true %s %s %s", core.ZList(cs.Ints), core.Z(cs.Target), core.Z(got)))
 	default:
-		c.Emit(fmt.Sprintf("CSearchKey %s %s %s", pairsTerm(cs.Pairs), core.Z(cs.Target), core.Z(got)))
+		emit(c, fmt.Sprintf("CSearchKey %s %s %s", pairsTerm(cs.Pairs), core.Z(cs.Target), core.Z(got)))
 	}
 }
 
@@ -410,7 +503,7 @@ func execShuffle(c *core.Ctx, cs Case) {
 		slices.ShuffleRand(again, rand.New(rand.NewSource(cs.Seed)))
 	}
 	if kind != "" {
-		c.Fail(cs.Fn+" panics", kind)
+		fail(c, cs.Fn+" panics", kind)
 		return
 	}
 	seen := map[int]int{}
@@ -425,10 +518,10 @@ func execShuffle(c *core.Ctx, cs Case) {
 		}
 	}
 	if !ok {
-		c.Fail(cs.Fn+": result is not a permutation of the input", fmt.Sprintf("%v -> %v", cs.Ints, out))
+		fail(c, cs.Fn+": result is not a permutation of the input", fmt.Sprintf("%v -> %v", cs.Ints, out))
 	}
 	if !core.Eq(out, again) {
-		c.Fail(cs.Fn+": equal generator states gave different results", fmt.Sprintf("%v vs %v", out, again))
+		fail(c, cs.Fn+": equal generator states gave different results", fmt.Sprintf("%v vs %v", out, again))
 	}
 	if n > 2 {
 		c.Nontrivial()
@@ -437,5 +530,5 @@ func execShuffle(c *core.Ctx, cs Case) {
 	for i, s := range swaps {
 		parts[i] = core.Pair(core.Z(s[0]), core.Z(s[1]))
 	}
-	c.Emit(fmt.Sprintf("CShuffle %s %s %s %s", core.Bool(global), core.ZList(cs.Ints), core.List(parts), core.ZList(out)))
+	emit(c, fmt.Sprintf("CShuffle %s %s %s %s", core.Bool(global), core.ZList(cs.Ints), core.List(parts), core.ZList(out)))
 }
